@@ -1,7 +1,7 @@
 (* C16 -- proofs about the const automaton (coq/Model/ConstAutomaton.v).
 
    The one-step facts are checked over ALL rows of the kind-level table
-       kind (25) x dimensionality class (4) x top-const (2) x category (2) x operation (53)
+       kind (93) x dimensionality class (4) x top-const (2) x category (2) x operation (99)
    by vm_compute of a forallb, and lifted to universally quantified statements with forallb_forall
    (the finite domains are the lists all_kinds, all_dcls, bools, all_cats, all_ops, each proved
    exhaustive).  The statements about paths are by induction on the path, for every length and every
@@ -14,10 +14,17 @@ From BM Require Import Model.ConstAutomaton.
 Lemma in_bools : forall b : bool, In b bools.
 Proof. destruct b; cbn; auto. Qed.
 
+Ltac in_list := vm_compute; repeat (first [left; reflexivity | right]); fail.
+
 Lemma in_all_kinds : forall k, In k all_kinds.
 Proof.
-  destruct k as [ | | pc | pc | pc | c pc | pc | pc | pc | pc | c pc | ];
-    try destruct c; try destruct pc; vm_compute; tauto.
+  destruct k;
+    repeat match goal with
+           | x : pfam |- _ => destruct x
+           | x : tk |- _ => destruct x
+           | x : apf |- _ => destruct x
+           | x : bool |- _ => destruct x
+           end; in_list.
 Qed.
 
 Lemma in_all_dcls : forall dc, In dc all_dcls.
@@ -27,7 +34,14 @@ Lemma in_all_cats : forall ct, In ct all_cats.
 Proof. destruct ct; vm_compute; tauto. Qed.
 
 Lemma in_all_ops : forall o, In o all_ops.
-Proof. destruct o; vm_compute; tauto. Qed.
+Proof.
+  destruct o;
+    repeat match goal with
+           | x : form |- _ => destruct x
+           | x : vtarget |- _ => destruct x
+           | x : bool |- _ => destruct x
+           end; in_list.
+Qed.
 
 (* a predicate checked on every row of the kind-level table *)
 Definition all_rows_k (f : kind -> dcl -> bool -> cat -> aop -> bool) : bool :=
@@ -186,7 +200,7 @@ Proof.
   induction p as [ | o tl IH]; intros s s' Hro Hc Hr.
   - cbn in Hr. inversion Hr; subst. split; [exact Hro | exact (ro_not_writable _ Hro)].
   - cbn [run_path] in Hr. cbn [clean_path] in Hc.
-    destruct (astep s o) as [s1 | | | | | | | ] eqn:E; try discriminate.
+    destruct (astep s o) as [s1 | | | | | | | | ] eqn:E; try discriminate.
     apply andb_true_iff in Hc. destruct Hc as [Hh Hc]. apply negb_true_iff in Hh.
     exact (IH s1 s' (ro_step _ _ _ Hro Hh E) Hc Hr).
 Qed.
@@ -195,7 +209,13 @@ Lemma const_root_ro : forall s, const_root s = true -> ro s = true.
 Proof.
   intros [k d c ct] H. unfold const_root, is_root in H. cbn in H.
   repeat (apply andb_true_iff in H; destruct H as [H ?]). subst.
-  unfold ro. cbn. destruct k as [ | | [|] | [|] | [|] | ? ? | ? | ? | ? | ? | ? ? | ]; cbn in *; try discriminate; reflexivity.
+  unfold ro. cbn.
+  destruct k; repeat match goal with
+                     | x : pfam |- _ => destruct x
+                     | x : tk |- _ => destruct x
+                     | x : apf |- _ => destruct x
+                     | x : bool |- _ => destruct x
+                     end; cbn in *; try discriminate; reflexivity.
 Qed.
 
 Lemma mutable_root_not_ro : forall s, mutable_root s = true -> ro s = false.
@@ -203,7 +223,13 @@ Proof.
   intros [k d c ct] H. unfold mutable_root, is_root in H. cbn in H.
   repeat (apply andb_true_iff in H; destruct H as [H ?]).
   apply negb_true_iff in H0. subst.
-  unfold ro. cbn. destruct k as [ | | [|] | [|] | [|] | ? ? | ? | ? | ? | ? | ? ? | ]; cbn in *; try discriminate; reflexivity.
+  unfold ro. cbn.
+  destruct k; repeat match goal with
+                     | x : pfam |- _ => destruct x
+                     | x : tk |- _ => destruct x
+                     | x : apf |- _ => destruct x
+                     | x : bool |- _ => destruct x
+                     end; cbn in *; try discriminate; reflexivity.
 Qed.
 
 Theorem const_roots_proved :
@@ -222,7 +248,7 @@ Proof.
   induction p as [ | o tl IH]; intros s s' Hro Hm Hr.
   - cbn in Hr. inversion Hr; subst. split; [exact Hro | exact (mutable_writable _ Hro)].
   - cbn [run_path] in Hr. cbn [mut_path] in Hm.
-    destruct (astep s o) as [s1 | | | | | | | ] eqn:E; try discriminate.
+    destruct (astep s o) as [s1 | | | | | | | | ] eqn:E; try discriminate.
     apply andb_true_iff in Hm. destruct Hm as [Hk Hm].
     exact (IH s1 s' (mut_step _ _ _ Hro Hk E) Hm Hr).
 Qed.
@@ -247,7 +273,7 @@ Definition cA2 : state := mkSt KArr 2 true Lv.        (* multi::array<int,2> con
 Lemma witness_iter_base :
   run_path [ABegin; ABase; ADeref] cA2 = Some (mkSt KElem 0 false Lv)
   /\ writable (mkSt KElem 0 false Lv) = true
-  /\ hole (mkSt (KIt true false) 2 false Rv) ABase = true.
+  /\ hole (mkSt (KIt true (PI false)) 2 false Rv) ABase = true.
 Proof. vm_compute. auto. Qed.
 
 Theorem const_full_refuted : ~ C16_const_full.
@@ -256,6 +282,69 @@ Proof.
   specialize (H cA2 [ABegin; ABase; ADeref] (mkSt KElem 0 false Lv) eq_refl eq_refl).
   vm_compute in H. discriminate.
 Qed.
+
+(* ---- every exclusion of `hole` is a real site of the tree: a path from a const root through it ends writable (or, for
+   transform_ptr::base(), in a mutable pointer to the struct element, which is outside the fragment).  The four sites for which this
+   package proposes a repair are stated under the hypothesis that the repair is not in the tree (fx_.. = false). ---- *)
+Definition cAS1 : state := mkSt KArrS 1 true Lv.      (* multi::array<S,1> const AS; *)
+Definition cAS2 : state := mkSt KArrS 2 true Lv.      (* multi::array<S,2> const AS; *)
+Definition cP2 : state := mkSt (KSub (PT TmR)) 2 true Lv.   (* auto const& cp = AS.element_transformed(&S::b); *)
+Definition wE : state := mkSt KElem 0 false Lv.       (* int& *)
+
+Ltac witness := try (intros Hfx; vm_compute in Hfx; try discriminate Hfx); vm_compute; repeat split; reflexivity.
+
+Lemma witness_sptr_conv :      (* multi::subarray_ptr<int, 2, int*, layout_t<2>, false> p = &A();  p->operator[](1)[1] = 1; *)
+  fx_sptr_conv = false ->
+  run_path [ACall0; AAddrOf; AConv FI false false; ADeref; AIndex; AIndex] cA2 = Some wE /\ writable wE = true
+  /\ hole (mkSt (KSP true (PI false)) 2 false Rv) (AConv FI false false) = true.
+Proof. witness. Qed.
+
+Lemma witness_tptr_conv :      (* transform_ptr<int, int S::*, S*, int&> q = cp.base();  *q = 1; *)
+  fx_tptr_conv = false ->
+  run_path [ABase; AConv FI false false; ADeref] cP2 = Some wE /\ writable wE = true
+  /\ hole (mkSt (KPt (PT TmC)) 0 false Rv) (AConv FI false false) = true.
+Proof. witness. Qed.
+
+Lemma witness_member_cast1 :   (* AS.member_cast<int>(&S::b)[1] = 1;  for a const 1-D AS *)
+  fx_csub_proj = false ->
+  run_path [AMemberCast; AIndex] cAS1 = Some wE /\ writable wE = true /\ hole cAS1 AMemberCast = true.
+Proof. witness. Qed.
+
+Lemma witness_csub_proj :      (* AS().element_transformed(&S::b)[1][1] = 1;  AS().member_cast<int>(&S::b)[1][1] = 1;  for a const AS *)
+  fx_csub_proj = false ->
+  run_path [ACall0; AETransMP; AIndex; AIndex] cAS2 = Some wE /\ run_path [ACall0; AMemberCast; AIndex; AIndex] cAS2 = Some wE
+  /\ writable wE = true
+  /\ hole (mkSt (KCSubS false) 2 false Rv) AETransMP = true /\ hole (mkSt (KCSubS false) 2 false Rv) AMemberCast = true.
+Proof. witness. Qed.
+
+Lemma witness_static_cast :    (* A.static_array_cast<int>()[1][1] = 1;  the overload marked [[deprecated("violates constness")]] *)
+  run_path [AStaticCast; AIndex; AIndex] cA2 = Some wE /\ writable wE = true /\ hole cA2 AStaticCast = true.
+Proof. witness. Qed.
+
+Lemma witness_tptr_base :      (* cp.base().base() is an S* const&: the struct element behind a const projection view is writable *)
+  run_path [ABase; ABase] cP2 = Some (mkSt (KPtS false) 0 true Lv) /\ ro (mkSt (KPtS false) 0 true Lv) = false
+  /\ hole (mkSt (KPt (PT TmC)) 0 false Rv) ABase = true.
+Proof. witness. Qed.
+
+Lemma witness_escapes :        (* the named ways out: A.const_array_cast()[1][1] = 1;  *A.mutable_base() = 1; *)
+  run_path [AConstCast; AIndex; AIndex] cA2 = Some wE /\ run_path [AMutableBase; ADeref] cA2 = Some wE /\ writable wE = true
+  /\ hole cA2 AConstCast = true /\ hole cA2 AMutableBase = true.
+Proof. witness. Qed.
+
+(* the projections and conversions are covered: the paths of the two breaking changes that prompted this extension are clean and end
+   read-only *)
+Theorem projections_and_conversions_clean :
+     (* cp[1][1], cp(1,1), *cp.begin()->begin() ... *)
+     (clean_path [AIndex; AIndex] cP2 = true /\ run_path [AIndex; AIndex] cP2 = Some (mkSt KElem 0 true Lv))
+  /\ (clean_path [ACallAll] cP2 = true /\ run_path [ACallAll] cP2 = Some (mkSt KElem 0 true Lv))
+  /\ (clean_path [AElements; AIndex] cP2 = true /\ run_path [AElements; AIndex] cP2 = Some (mkSt KElem 0 true Lv))
+  /\ (clean_path [AHome; ADeref] cP2 = true /\ run_path [AHome; ADeref] cP2 = Some (mkSt KElem 0 true Lv))
+  /\ (clean_path [ABegin; ADeref; ABegin; ADeref] cP2 = true /\ run_path [ABegin; ADeref; ABegin; ADeref] cP2 = Some (mkSt KElem 0 true Lv))
+     (* multi::array<int,2>::iterator it = A.begin(); is ill-formed: implicitly, explicitly, by assignment *)
+  /\ (astep (mkSt (KIt true (PI false)) 2 false Rv) (AConv FI false false) = No
+      /\ astep (mkSt (KIt true (PI false)) 2 false Rv) (AConv FE false false) = No
+      /\ astep (mkSt (KIt true (PI false)) 2 false Rv) (AConv FA false false) = No).
+Proof. vm_compute. repeat split; reflexivity. Qed.
 
 (* the five steps that were exclusions on the snapshot are ordinary, read-only preserving rows now: the former witness
    paths are clean and end read-only (or are no longer well-formed as a write) *)
@@ -274,7 +363,14 @@ Proof. vm_compute. repeat split; reflexivity. Qed.
 
 (* the second half of the statement at full strength, and the operations at which it fails on the tree *)
 Definition intended_const_op (o : aop) : bool :=
-  match o with ACBegin | ACEnd | ACElements | AConstElements | AAsConst | ABindCRef | ABroadcasted => true | _ => false end.
+  match o with
+  | ACBegin | ACEnd | ACElements | AConstElements | AAsConst | ABindCRef | ABroadcasted => true
+  | ACBase | AStaticCastC | ADecay => true                   (* cbase(), static_array_cast<T const>(), decay() const& of an array_ref *)
+  | AETransLC | AETransLV => true                            (* a functor that returns a reference to const / a value *)
+  | AConv _ true _ | AConv _ _ true => true                  (* conversion to the const handle / to the handle over the pointer to const *)
+  | AToView VCSub _ _ | AToView _ _ true => true             (* construction of a const_subarray / of a view over the pointer to const *)
+  | _ => false
+  end.
 
 Definition C16_mutable_full : Prop :=
   forall (r : state) (p : list aop) (s : state),
@@ -294,6 +390,7 @@ Qed.
 Definition gap_op (o : aop) : bool :=
   match o with
   | AFront | ABack | ASlicedS | AReversed | AChunked | AHalved | AReindexed | ABlocked | AStenciled | AArrow => true
+  | AElementsAt => true                                      (* :1310-1323, :2907-2909: every overload goes through operator[] const& *)
   | _ => false
   end.
 
@@ -301,17 +398,19 @@ Definition inv_gap_row (k : kind) (dc : dcl) (c : bool) (ct : cat) (o : aop) : b
   match astep_k k dc c ct o with
   | inl (RT k' _ c' _) =>
       implb (negb (ro_k k c) && ro_k k' c' && negb (owning k && match ct with Rv => true | Lv => false end))
-            (gap_op o || intended_const_op o || (match o, k with ABase, KEI false => c | _, _ => false end))
+            (gap_op o || intended_const_op o || (match o, k with ABase, KEI _ => c | _, _ => false end))
   | _ => true
   end.
 
 Lemma inv_gap_all : all_rows_k inv_gap_row = true.
 Proof. vm_compute. reflexivity. Qed.
 
+Definition is_ei (k : kind) : bool := match k with KEI _ => true | _ => false end.
+
 Theorem mutability_lost_only_at_gaps :
   forall s o s', ro s = false -> astep s o = To s' -> ro s' = true ->
     (owning (sk s) && match scat s with Rv => true | Lv => false end) = false ->
-    gap_op o = true \/ intended_const_op o = true \/ (o = ABase /\ sk s = KEI false /\ sc s = true).
+    gap_op o = true \/ intended_const_op o = true \/ (o = ABase /\ is_ei (sk s) = true /\ sc s = true).
 Proof.
   intros s o s' Hro Hs Hro' Hown.
   destruct (astep_to _ _ _ Hs) as (k' & dd & c' & ct' & E & ->).
@@ -320,7 +419,7 @@ Proof.
   rewrite Hro, Hro', Hown in R. cbn in R.
   apply orb_true_iff in R. destruct R as [R | R].
   - apply orb_true_iff in R. destruct R; auto.
-  - right; right. destruct o; try discriminate. destruct (sk s) as [ | | ? | ? | ? | ? ? | ? | [|] | ? | ? | ? ? | ]; try discriminate. auto.
+  - right; right. destruct o; try discriminate. destruct (sk s); try discriminate. auto.
 Qed.
 
 (* ---- third clause: reference types cannot be rebound, resized or copied ---- *)
@@ -341,14 +440,19 @@ Proof. intros; cbn; auto. Qed.
    mutable view / array_ref, never on a read-only one, and never changes rebindable/resizable *)
 Theorem view_assignment_is_element_assignment :
   forall s, (is_view (sk s) = true \/ is_array_ref (sk s) = true) ->
-    (ro s = true -> astep s AAssign <> Mut) /\ (ro s = false -> astep s AAssign = Mut).
+    (ro s = true -> astep s AAssign <> Mut) /\ (ro s = false -> assignable_thing s = true -> astep s AAssign = Mut).
 Proof.
   intros s Hk. split.
   - intros Hro Hm. pose proof (ro_not_writable _ Hro) as W. unfold writable in W.
     cbn [mutators existsb] in W. rewrite Hm in W. discriminate.
-  - intros Hro. destruct s as [k d c ct]. unfold ro in Hro. cbn in *.
-    destruct Hk as [Hk | Hk]; destruct k as [ | | [|] | [|] | [|] | ? ? | ? | ? | ? | ? | ? ? | ]; try discriminate;
-      cbn in Hro; subst;
+  - intros Hro Ha. destruct s as [k d c ct]. unfold ro in Hro. unfold assignable_thing in Ha. cbn in *.
+    destruct Hk as [Hk | Hk]; destruct k; try discriminate;
+      repeat match goal with
+             | x : pfam |- _ => destruct x
+             | x : tk |- _ => destruct x
+             | x : apf |- _ => destruct x
+             | x : bool |- _ => destruct x
+             end; try discriminate;
       destruct d as [ | [ | [ | d]]]; destruct ct; vm_compute; reflexivity.
 Qed.
 
@@ -356,7 +460,13 @@ Qed.
 Example clean_example :
   let p := [ARotated; ACallRngIdx; ABindRef; ABegin; APlus1; ADeref] in
   const_root (mkSt KArr 3 true Lv) = true /\ clean_path p (mkSt KArr 3 true Lv) = true
-  /\ run_path p (mkSt KArr 3 true Lv) = Some (mkSt (KCSub false) 1 false Rv).
+  /\ run_path p (mkSt KArr 3 true Lv) = Some (mkSt (KCSub (PI false)) 1 false Rv).
+Proof. vm_compute. auto. Qed.
+
+Example projection_example :      (* auto const& cp = AS.element_transformed(&S::b);  cp.rotated()({0,2},1).begin()[1] is an int const& *)
+  let p := [AETransMP; ABindCRef; ARotated; ACallRngIdx; ABegin; AIndex] in
+  mutable_root (mkSt KArrS 2 false Lv) = true /\ clean_path p (mkSt KArrS 2 false Lv) = true
+  /\ run_path p (mkSt KArrS 2 false Lv) = Some (mkSt KElem 0 true Lv).
 Proof. vm_compute. auto. Qed.
 
 Example mutable_example :
@@ -368,9 +478,15 @@ Proof. vm_compute. auto. Qed.
 
 (* ---- size of what the vm_compute lemmas range over, and of the table that is tied to the library ---- *)
 Lemma kind_table_size :
-  length all_kinds = 25 /\ length all_dcls = 4 /\ length bools = 2 /\ length all_cats = 2 /\ length all_ops = 53.
+  length all_kinds = 93 /\ length all_dcls = 4 /\ length bools = 2 /\ length all_cats = 2 /\ length all_ops = 99.
 Proof. vm_compute. repeat split; reflexivity. Qed.
 
-(* 276 states x 53 operations *)
-Lemma tied_table_size : length table_states = 276 /\ length table_rows = length table_states * length all_ops.
-Proof. vm_compute. auto. Qed.
+(* 1028 states x 99 operations *)
+Lemma rows_of_length : forall sts, length (rows_of sts) = length sts * length all_ops.
+Proof.
+  induction sts as [ | s tl IH]; [reflexivity | ].
+  unfold rows_of in *. cbn [flat_map]. rewrite app_length, map_length, IH. reflexivity.
+Qed.
+
+Lemma tied_table_size : length table_states = 1028 /\ length table_rows = length table_states * length all_ops.
+Proof. split; [vm_compute; reflexivity | apply rows_of_length]. Qed.
